@@ -270,3 +270,50 @@ Proof.
   unfold NoDupKeys, keys in Hnd. rewrite map_app in Hnd. cbn [map fst] in Hnd.
   apply NoDup_remove_2 in Hnd. apply Hnd. rewrite app_nil_r. apply in_map_iff. exists (nk, v). auto.
 Qed.
+
+(* ---- a second save is the first: the serialiser does not see where the note data sits ---- *)
+Lemma get_filter_not_key (c : props) nk : get nk (filter (not_key nk) c) = None.
+Proof.
+  induction c as [|[k v] r IH]; [reflexivity|]. cbn [filter]. unfold not_key at 1. cbn [fst].
+  destruct (str_eqb k nk) eqn:E; cbn [negb]; [exact IH|]. cbn [get].
+  destruct (str_eqb nk k) eqn:E'; [|exact IH]. apply str_eqb_eq in E'. subst k. rewrite str_eqb_refl in E. discriminate.
+Qed.
+
+Lemma get_filter_other (c : props) nk k : k <> nk -> get k (filter (not_key nk) c) = get k c.
+Proof.
+  intro Hne. induction c as [|[k' v] r IH]; [reflexivity|]. cbn [filter]. unfold not_key at 1. cbn [fst].
+  destruct (str_eqb k' nk) eqn:E; cbn [negb get].
+  - apply str_eqb_eq in E. subst k'. apply str_eqb_neq in Hne. rewrite Hne. exact IH.
+  - destruct (str_eqb k k'); [reflexivity|exact IH].
+Qed.
+
+Lemma kNOTES_neq_kNOTES2 : kNOTES <> kNOTES2. Proof. intro H. discriminate H. Qed.
+
+Lemma notes_key_notes_last c : notes_key (notes_last_chart c) = notes_key c.
+Proof.
+  unfold notes_last_chart. destruct (get (notes_key c) c) as [nv|] eqn:G; [|reflexivity].
+  unfold notes_key in *. unfold has in *.
+  destruct (get kNOTES c) as [x|] eqn:G1; cbn [negb andb] in *.
+  - rewrite get_app_omap, get_filter_not_key. cbn [get]. rewrite str_eqb_refl. reflexivity.
+  - destruct (get kNOTES2 c) as [y|] eqn:G2; cbn [negb andb] in *; [|congruence].
+    rewrite !get_app_omap, get_filter_not_key, (get_filter_other c kNOTES2 kNOTES kNOTES_neq_kNOTES2), G1. cbn [get].
+    rewrite str_eqb_refl. destruct (str_eqb kNOTES kNOTES2) eqn:E; [apply str_eqb_eq in E; destruct (kNOTES_neq_kNOTES2 E)|]. reflexivity.
+Qed.
+
+Lemma filter_not_key_idem (c : props) nk : filter (not_key nk) (filter (not_key nk) c) = filter (not_key nk) c.
+Proof. apply filter_all_id'. intros x Hx. apply filter_In in Hx. tauto. Qed.
+
+Lemma ser_ssc_chart_notes_last c : ser_ssc_chart (notes_last_chart c) = ser_ssc_chart c.
+Proof.
+  unfold ser_ssc_chart. rewrite notes_key_notes_last. unfold notes_last_chart.
+  destruct (get (notes_key c) c) as [nv|] eqn:G; [|rewrite G; reflexivity].
+  set (nk := notes_key c) in *. rewrite get_app_omap, get_filter_not_key. cbn [get]. rewrite str_eqb_refl.
+  rewrite flat_map_app. cbn [flat_map fst]. rewrite str_eqb_refl, app_nil_r.
+  rewrite !flat_map_skip, filter_not_key_idem. reflexivity.
+Qed.
+
+Lemma ser_ssc_charts_notes_last cs : ser_ssc_charts (map notes_last_chart cs) = ser_ssc_charts cs.
+Proof. induction cs as [|c r IH]; [reflexivity|]. cbn [map ser_ssc_charts]. rewrite ser_ssc_chart_notes_last, IH. reflexivity. Qed.
+
+Theorem ser_ssc_notes_last sf : ser_ssc (notes_last sf) = ser_ssc sf.
+Proof. unfold ser_ssc, notes_last. cbn [ssc_charts ssc_props]. rewrite ser_ssc_charts_notes_last. reflexivity. Qed.
